@@ -45,6 +45,12 @@ class ThreadRunner(BaseRunner):
         self.asyncio_loop.call_soon_threadsafe(self._set_failure, failure)
 
     def _set_failure(self, failure: BaseException):
+        if isinstance(failure, StopIteration):
+            # StopIteration cannot be raised into a Future or through a coroutine:
+            # report it chained to a RuntimeError, as Python itself does (PEP 479)
+            error = RuntimeError("payload raised StopIteration")
+            error.__cause__ = failure
+            failure = error
         if not self._payload_failure.done():
             self._payload_failure.set_exception(failure)
 
